@@ -57,6 +57,9 @@ def reg_preset(rng):
     for r in range(1, 32):
         if rng.random() < 0.6:
             regs[r] = rnd32(rng)
+    if rng.random() < 0.7:
+        regs[17] = rng.choice([1, 11, 34, 35, 36, 4, 1, 11])     # a valid printing service for bare ecalls
+        regs[10] = rng.choice([65, 7, DATA + 32, rnd32(rng)])
     regs[8] = DATA + 4 * rng.randrange(0, 8)      # data base registers
     regs[9] = DATA + rng.randrange(0, 40)
     return sorted([r, v] for r, v in regs.items())
@@ -79,6 +82,18 @@ def gen_alu(rng):
 
 
 def gen_mem(rng, aligned_only=False, fault_p=0.05):
+    if rng.random() < 0.12:
+        # top of the address space through x0 and a negative offset (the effective address wraps modulo 2^32)
+        off = -rng.choice([4, 8, 12, 16]) if aligned_only else -rng.randrange(1, 20)
+        if rng.random() < 0.5:
+            op = rng.choice(L_OPS)
+            if aligned_only:
+                op = MN["lw"]
+            return [op, small_reg(rng), 0, off]
+        op = rng.choice(S_OPS)
+        if aligned_only:
+            op = MN["sw"]
+        return [op, 0, small_reg(rng), off]
     base = rng.choice([8, 9]) if rng.random() > fault_p else rng.choice([0, 1, 2])
     if rng.random() < 0.5:
         op = rng.choice(L_OPS)
@@ -122,6 +137,8 @@ def gen_program(rng, maxlen=30, aligned_only=False, allow_fault=True, ecalls=Tru
             r = rng.choice([5, 6, 7])
             prog.append([MN["addi"], r, 0, 4 * j + rng.choice([0, 0, 0, 1])])
             prog.append([MN["jalr"], rng.choice([0, 1, r]), r, rng.choice([0, 0, 4, -4, 1])])
+        elif k < 0.91 and ecalls:
+            prog.append([MN["ecall"]])            # bare ecall: a7/a0 come from the presets or from far earlier code
         elif k < 0.97 and ecalls:
             code = rng.choice(ECALL_CODES) if rng.random() < 0.9 or not allow_fault else rng.choice([0, 3, 5, 100])
             prog.append([MN["addi"], 17, 0, code])
